@@ -210,7 +210,7 @@ pub fn check_hash_tables(c: &HashCase) -> Result<(), String> {
     let mut bloom = vec![0u64; nbloom as usize]; let mut gb = vec![0u32; nb as usize]; let mut gc = vec![0u32; nsym - symoff];
     for k in symoff..nsym {
         let h = djb2(name_of(k)); let b = (h % nb) as usize;
-        bloom[((h / bits) % nbloom) as usize] |= (1u64 << (h % bits)) | (1u64 << ((h >> c.shift) % bits));
+        bloom[((h / bits) % nbloom) as usize] |= (1u64 << (h % bits)) | (1u64 << (h.checked_shr(c.shift).unwrap_or(0) % bits));
         if gb[b] == 0 { gb[b] = k as u32; }
         let last = k + 1 == nsym || djb2(name_of(k + 1)) % nb != h % nb;
         gc[k - symoff] = (h & !1) | (last as u32);
@@ -218,7 +218,7 @@ pub fn check_hash_tables(c: &HashCase) -> Result<(), String> {
     let mut gnu = Vec::new(); w32(&mut gnu, l, nb); w32(&mut gnu, l, symoff as u32); w32(&mut gnu, l, nbloom); w32(&mut gnu, l, c.shift);
     for w in bloom.iter() { if c.elf64 { w64(&mut gnu, l, *w) } else { w32(&mut gnu, l, *w as u32) } }
     for x in gb.iter() { w32(&mut gnu, l, *x); } for x in gc.iter() { w32(&mut gnu, l, *x); }
-    let well_formed = c.corrupt.is_none();
+    let well_formed = c.corrupt.is_none() && c.shift < 32;       // a shift count >= 32 is not a well-formed table (lookups must still not panic)
     if let Some((in_gnu, pos, val)) = c.corrupt { let t = if in_gnu { &mut gnu } else { &mut sysv }; let p = pos % t.len(); t[p] ^= val | 1; }
     let syms = elf::symbol::SymbolTable::<AnyEndian>::new(e, class, &symtab);
     let st = elf::string_table::StringTable::new(&strs);
@@ -250,7 +250,7 @@ pub fn enumerate_hash(n: usize, seed: u64) -> Vec<HashCase> {
         for _ in 0..nn { let x = mk(&mut r); if r.next(6) == 0 && !names.is_empty() { let d = names[r.next(names.len() as u64) as usize].clone(); names.push(d); } else { names.push(x); } }
         let absent: Vec<Vec<u8>> = (0..6).map(|_| mk(&mut r)).collect();
         let corrupt = if r.next(3) == 0 { Some((r.next(2) == 0, r.next(4096) as usize, r.next(256) as u8)) } else { None };
-        out.push(HashCase { names, absent, nbucket: [1u32, 1, 2, 3, 5, 8][r.next(6) as usize], nbloom: [1u32, 1, 2, 4][r.next(4) as usize], shift: [5u32, 6, 26, 0, 31, 11][r.next(6) as usize], elf64: r.next(2) == 0, little: r.next(2) == 0, corrupt });
+        out.push(HashCase { names, absent, nbucket: [1u32, 1, 2, 3, 5, 8][r.next(6) as usize], nbloom: [1u32, 1, 2, 4][r.next(4) as usize], shift: [5u32, 6, 26, 0, 31, 11, 6, 40, 63, 32][r.next(10) as usize], elf64: r.next(2) == 0, little: r.next(2) == 0, corrupt });
     }
     out
 }
